@@ -133,6 +133,8 @@ type Exec struct {
 	skolem        bool
 	initKeys      map[string]bool
 	havocId       int
+	anchorHits    map[string]int
+	loopTextHits  map[string]int
 	guardCount    int
 	touched       []touchedPtr
 	pendingHavoc  []string
@@ -566,6 +568,25 @@ func (x *Exec) execBlock(st *State, list []ast.Stmt) *State {
 }
 
 func (x *Exec) execStmt(st *State, s ast.Stmt) *State {
+	out := x.execStmt1(st, s)
+	if out != nil && x.spec == 0 && x.noSafety == 0 {
+		if c := x.eng.cf.Contracts[x.frame().qual]; c != nil && len(c.GhostAfter) > 0 {
+			switch s.(type) {
+			case *ast.AssignStmt, *ast.ExprStmt, *ast.IncDecStmt, *ast.DeclStmt:
+				txt := x.eng.srcText(s)
+				for _, ga := range c.GhostAfter {
+					if strings.HasPrefix(txt, ga.Anchor) {
+						x.anchorHits[ga.Anchor]++
+						x.applyEffect(out, out, ga.Eff, s.End(), x.frame().qual)
+					}
+				}
+			}
+		}
+	}
+	return out
+}
+
+func (x *Exec) execStmt1(st *State, s ast.Stmt) *State {
 	if st == nil || x.infeasible(st) {
 		return nil
 	}
@@ -1211,7 +1232,37 @@ func (x *Exec) loopSpec(s ast.Stmt) (*LoopSpec, int) {
 	if c == nil {
 		return nil, n
 	}
+	if len(c.LoopsByText) > 0 {
+		hdr := x.loopHeader(s)
+		for _, h := range c.LoopTextOrder {
+			if strings.HasPrefix(hdr, h) {
+				x.loopTextHits[fr.qual+"|"+h]++
+				return c.LoopsByText[h], n
+			}
+		}
+	}
 	return c.Loops[n], n
+}
+
+// loopHeader: source text of a loop statement up to its body.
+func (x *Exec) loopHeader(s ast.Stmt) string {
+	var body *ast.BlockStmt
+	switch l := s.(type) {
+	case *ast.ForStmt:
+		body = l.Body
+	case *ast.RangeStmt:
+		body = l.Body
+	}
+	if body == nil {
+		return ""
+	}
+	p1 := x.eng.fset.Position(s.Pos())
+	p2 := x.eng.fset.Position(body.Lbrace)
+	src := x.eng.srcs[p1.Filename]
+	if src == nil || p2.Offset > len(src) {
+		return ""
+	}
+	return strings.Join(strings.Fields(string(src[p1.Offset:p2.Offset])), " ")
 }
 
 // frameInfo: what a statement may write.
@@ -1341,6 +1392,27 @@ func (x *Exec) callFrame(c *ast.CallExpr, fi *frameInfo) {
 		return
 	}
 	var callee *types.Func
+	// call of a func-typed parameter that has a callback contract
+	if id, ok := unparen(c.Fun).(*ast.Ident); ok && len(x.frames) > 0 {
+		if ct := x.eng.cf.Contracts[x.frame().qual]; ct != nil {
+			if cb := ct.Callbacks[id.Name]; cb != nil {
+				if cb.Pure {
+					return
+				}
+				for _, m := range cb.Modifies {
+					if m == "*" || m == "heap" {
+						fi.heapAll = true
+					} else {
+						fi.heapKeys[strings.TrimSuffix(m, ".*")] = true
+					}
+				}
+				if len(cb.Modifies) == 0 {
+					fi.heapAll = true
+				}
+				return
+			}
+		}
+	}
 	switch f := unparen(c.Fun).(type) {
 	case *ast.Ident:
 		if b, ok := x.eng.info.Uses[f].(*types.Builtin); ok {
